@@ -507,6 +507,60 @@ func c11BatchAndParams(c *Ctx) {
 			okU := um != nil && dominatesInstr(um.Instr, ret.Ret)
 			okE, m1 := everyDisjunctHas(d, []string{"^!", "json.Unmarshal(", "!= nil"})
 			okV, m2 := everyDisjunctHas(d, []string{"^!", "s.validator != nil"}, []string{"s.validator == nil"}, []string{"^!", "s.validateParam(", "!= nil"})
+			// decoding / validation delegated to same-package helpers: the helper's call dominates the success return, its error
+			// was found nil, and the helper does the step on each of its own success paths
+			if !okU || !okE {
+				for _, ds := range p.deepSites(f, func(x Site) bool {
+					n := x.CalleeName()
+					return strings.HasSuffix(n, "json.Unmarshal") || strings.HasSuffix(n, "Decoder).Decode")
+				}, 2) {
+					if len(ds.Chain) == 0 {
+						continue
+					}
+					outer := ds.Chain[0]
+					h := outer.Callee
+					inner := ds.Site.Instr
+					allPass := true
+					for _, hr := range returnsOf(h) {
+						if len(hr.Results) > 0 && isNilConst(hr.Results[len(hr.Results)-1]) && len(ds.Chain) == 1 && !dominatesInstr(inner, hr.Ret) {
+							allPass = false
+						}
+					}
+					nm := strings.TrimPrefix(qname(h), "(*jsonrpc.Server).")
+					if i := strings.LastIndex(nm, "."); i >= 0 {
+						nm = nm[i+1:]
+					}
+					if o, _ := everyDisjunctHas(d, []string{"^!", nm + "(", "!= nil"}); o && allPass && dominatesInstr(outer.Instr, ret.Ret) {
+						okU, okE, m1 = true, true, ""
+					}
+				}
+			}
+			if !okV {
+				for _, ds := range p.deepSites(f, nameMatcher("validateParam"), 2) {
+					if len(ds.Chain) == 0 {
+						continue
+					}
+					outer := ds.Chain[0]
+					h := outer.Callee
+					// inside the helper: validateParam is skipped only when no validator is configured
+					okIn := true
+					for _, hr := range returnsOf(h) {
+						if len(hr.Results) == 0 || !isNilConst(hr.Results[len(hr.Results)-1]) {
+							continue
+						}
+						if o, _ := everyDisjunctHas(p.mustHoldAt(hr.Ret), []string{"^!", ".validator != nil"}, []string{".validator == nil"}, []string{"^!", "validateParam(", "!= nil"}); !o {
+							okIn = false
+						}
+					}
+					nm := qname(h)
+					if i := strings.LastIndex(nm, "."); i >= 0 {
+						nm = nm[i+1:]
+					}
+					if o, _ := everyDisjunctHas(d, []string{"^!", nm + "(", "!= nil"}); o && okIn && dominatesInstr(outer.Instr, ret.Ret) {
+						okV, m2 = true, ""
+					}
+				}
+			}
 			c.check(okU && okE && okV, "param-validated", "parseParam success", p.Pos(posOf(ret.Ret, f)), "the value was decoded into the handler's type without error and validated when a validator is configured",
 				fmt.Sprintf("a parameter reaches the handler without being decoded into its type and validated (decoded: %v %s; validated: %v %s): e.g. an explicit null skips the type's UnmarshalJSON and the validator, so the handler runs on an unvalidated zero value instead of the request being rejected with -32602", okU && okE, m1, okV, m2))
 		}
@@ -885,9 +939,15 @@ func c11NullRequired(c *Ctx) {
 		for _, cj := range d {
 			cmp, isNil := false, false
 			for _, a := range cj.list() {
-				if strings.Contains(a, vt) && strings.Contains(a, "== nil") && !strings.Contains(a, "(") || strings.Contains(a, "("+vt+" == nil)") {
+				if strings.Contains(a, "("+vt+" == nil)") {
 					cmp = true
 					if !strings.HasPrefix(a, "!") {
+						isNil = true
+					}
+				}
+				if strings.Contains(a, "("+vt+" != nil)") { // the same test spelt the other way round
+					cmp = true
+					if strings.HasPrefix(a, "!") {
 						isNil = true
 					}
 				}
